@@ -52,6 +52,9 @@ pub struct BatchCfg {
 struct Slot {
     run_plus1: AtomicU64,
     start_ms: AtomicU64,
+    /// run (plus one) that exceeded its budget here but finished in time in a fresh process:
+    /// the machine is slow or overloaded, the run is not a hang
+    forgiven_plus1: AtomicU64,
 }
 
 pub fn run_batch(engine: &dyn Engine, cfg: &BatchCfg, shared: Arc<Shared>) -> BatchResult {
@@ -69,6 +72,7 @@ pub fn run_batch(engine: &dyn Engine, cfg: &BatchCfg, shared: Arc<Shared>) -> Ba
         .map(|_| Slot {
             run_plus1: AtomicU64::new(0),
             start_ms: AtomicU64::new(0),
+            forgiven_plus1: AtomicU64::new(0),
         })
         .collect();
     let accs: Mutex<Vec<Acc>> = Mutex::new(Vec::new());
@@ -160,14 +164,28 @@ pub fn run_batch(engine: &dyn Engine, cfg: &BatchCfg, shared: Arc<Shared>) -> Ba
                     let r = s.run_plus1.load(Ordering::Acquire);
                     if r != 0 {
                         let st = s.start_ms.load(Ordering::Relaxed);
-                        if now.saturating_sub(st) > cfg.hang_budget.as_millis() as u64 {
-                            // re-check it is still the same run
-                            if s.run_plus1.load(Ordering::Acquire) == r {
-                                let idx = r - 1;
-                                let seed = run_seed_for(cfg.base_seed, engine.name(), idx);
+                        let over = now.saturating_sub(st);
+                        let budget = cfg.hang_budget.as_millis() as u64;
+                        if over > budget && s.run_plus1.load(Ordering::Acquire) == r {
+                            let idx = r - 1;
+                            let seed = run_seed_for(cfg.base_seed, engine.name(), idx);
+                            if s.forgiven_plus1.load(Ordering::Relaxed) == r {
+                                // a run that terminates in a fresh process but not here after
+                                // twenty budgets cannot be decided: harness error, not a verdict
+                                if over > budget * 20 {
+                                    eprintln!("[sim] run {} (seed {:#x}) of engine {} terminates in a fresh process but not in the batch; harness error", idx, seed, engine.name());
+                                    std::process::exit(2);
+                                }
+                                continue;
+                            }
+                            // A wall-clock budget alone must never decide: the same run is
+                            // executed in a fresh process; only if it does not terminate there
+                            // either is it reported.  Otherwise the machine is slow or overloaded.
+                            if confirm_hang(engine.name(), idx, seed, cfg.tier) {
                                 *hang.lock().unwrap() = Some((idx, seed));
                                 return true;
                             }
+                            s.forgiven_plus1.store(r, Ordering::Relaxed);
                         }
                     }
                 }
@@ -190,7 +208,10 @@ pub fn run_batch(engine: &dyn Engine, cfg: &BatchCfg, shared: Arc<Shared>) -> Ba
             // We cannot kill the stuck worker thread; the caller handles the report and
             // exits the process. Leak the scope by exiting here.
             let (idx, seed) = hang.lock().unwrap().unwrap();
-            super::runner::report_hang_and_exit(engine.name(), idx, seed, cfg.tier);
+            let prop = std::env::var("VERIF_PROPERTY").unwrap_or_else(|_| "UNKNOWN".into());
+            println!("VIOLATION property={} replay={}", prop, hang_replay_path(engine.name(), seed).display());
+            let _ = (idx, seed);
+            std::process::exit(1);
         }
         for h in handles {
             let _ = h.join();
@@ -224,13 +245,20 @@ pub fn run_batch(engine: &dyn Engine, cfg: &BatchCfg, shared: Arc<Shared>) -> Ba
     }
 }
 
-/// Called from the supervisor path: a run exceeded its wall budget. Write a seed replay,
-/// confirm it in a fresh process, print the VIOLATION line and exit.
-pub fn report_hang_and_exit(engine: &str, idx: u64, seed: u64, tier: Tier) -> ! {
+fn hang_replay_path(engine: &str, seed: u64) -> std::path::PathBuf {
     let prop = std::env::var("VERIF_PROPERTY").unwrap_or_else(|_| "UNKNOWN".into());
-    let dir = crate::verif_dir().join("replays");
-    let _ = std::fs::create_dir_all(&dir);
-    let path = dir.join(format!("{}-{}-hang-{:016x}.json", prop, engine, seed));
+    crate::verif_dir().join("replays").join(format!("{}-{}-hang-{:016x}.json", prop, engine, seed))
+}
+
+/// A run exceeded its wall budget. Write a seed replay and execute it in a fresh process:
+/// true when it does not terminate there either (the replay file stays), false when it
+/// finishes (the file is removed: nothing to report).
+pub fn confirm_hang(engine: &str, idx: u64, seed: u64, tier: Tier) -> bool {
+    let prop = std::env::var("VERIF_PROPERTY").unwrap_or_else(|_| "UNKNOWN".into());
+    let path = hang_replay_path(engine, seed);
+    if let Some(d) = path.parent() {
+        let _ = std::fs::create_dir_all(d);
+    }
     let doc = json!({
         "property": prop,
         "engine": engine,
@@ -243,15 +271,13 @@ pub fn report_hang_and_exit(engine: &str, idx: u64, seed: u64, tier: Tier) -> ! 
     });
     let _ = std::fs::write(&path, serde_json::to_string_pretty(&doc).unwrap());
     eprintln!(
-        "[sim] run {} (seed {:#x}) of engine {} exceeded its budget; confirming in a fresh process",
+        "[sim] run {} (seed {:#x}) of engine {} exceeded its budget; executing it in a fresh process",
         idx, seed, engine
     );
     let confirmed = crate::confirm_replay(&path, &format!("{}/hang", engine));
-    if confirmed {
-        println!("VIOLATION property={} replay={}", prop, path.display());
-        std::process::exit(1);
-    } else {
-        eprintln!("[sim] hang did not reproduce in a fresh process (slow machine?); harness error");
-        std::process::exit(2);
+    if !confirmed {
+        eprintln!("[sim] the run terminates in a fresh process: slow or overloaded machine, not a hang; continuing");
+        let _ = std::fs::remove_file(&path);
     }
+    confirmed
 }
